@@ -104,6 +104,9 @@ func init() {
 // aNative converts a value of one of the ten stackage-family Go types of the
 // harness with plain Go conversions: kind 1 = Stack, 2 = Condition, 0 = other.
 func aNative(v any) (s stk.Stack, c stk.Condition, a string, kind int) {
+	if ls, lc, k := unlocal(v); k != 0 {
+		return ls, lc, "alocal", k
+	}
 	if b, d := unchain(v); d >= 2 {
 		form := "pp"
 		if d >= 3 {
@@ -295,6 +298,9 @@ func (n *Node) retype(s stk.Stack) any {
 			return ptrChain(aStack(s), d)
 		}
 		return ptrChain(s, d)
+	}
+	if n.A == "alocal" {
+		return localStackAliasA(s)
 	}
 	return s
 }
@@ -656,6 +662,9 @@ func aliasRepointProbe() (problem string) {
 // nativeOf: the native Stack handle behind a nested Stack however it is typed
 // (type switches over the harness' own alias types: not the converters under test)
 func nativeOf(v any) (stk.Stack, bool) {
+	if ls, _, k := unlocal(v); k == 1 {
+		return ls, ls.IsInit()
+	}
 	if b, d := unchain(v); d >= 2 {
 		v = b
 	}
@@ -786,6 +795,57 @@ func deepLen(u []any, depth int) int {
 	return n
 }
 
+// ptrExprProbe: a Condition whose expression is a POINTER to a Stack variable sees
+// what the variable holds when it is asked, not what it held when the pointer
+// was handed over: the variable is initialised late, re-assigned, freed, revived.
+// Each time a Condition given the same pointer after the fact must answer alike.
+func ptrExprProbe() (problem string) {
+	defer func() {
+		if r := recover(); r != nil {
+			problem = fmt.Sprintf("pointer-expression probe panicked: %v", r)
+		}
+	}()
+	answers := func(c stk.Condition) string {
+		u, ue := c.Unmarshal()
+		pu, pe := stk.Or().Push("head", c).Unmarshal()
+		return fmt.Sprintf("nesting:%v len:%d fifo:%v string:%q unmarshal:%v/%v parent:%v/%v valid:%v",
+			c.IsNesting(), c.Len(), c.IsFIFO(), c.String(), u, ue != nil, pu, pe != nil, c.Valid() == nil)
+	}
+	var st stk.Stack
+	// one Condition per step: each was handed the pointer when the variable held something else
+	held := []stk.Condition{stk.Cond("k", stk.Eq, &st)}
+	check := func(step string) bool {
+		late := stk.Cond("k", stk.Eq, &st)
+		for i, c := range held {
+			if a, b := answers(c), answers(late); a != b {
+				problem = fmt.Sprintf("a Condition holding a pointer to a Stack variable (handed over at step %d), after %s: %s; a Condition given the same pointer now: %s", i, step, a, b)
+				return false
+			}
+		}
+		held = append(held, late)
+		return true
+	}
+	st = stk.And().Push("a", "b")
+	if !check("the variable was initialised") {
+		return
+	}
+	st = stk.Or().SetFIFO(true).Push("x")
+	if !check("the variable was re-assigned") {
+		return
+	}
+	st.Push("y", stk.And().Push("z"))
+	if !check("the Stack grew") {
+		return
+	}
+	st.Free()
+	if !check("the variable was freed") {
+		return
+	}
+	st.Marshal([]any{"AND", "r", "s", "t"})
+	check("the variable was revived by Marshal")
+	return
+}
+
 func minInt(a, b int) int {
 	if a < b {
 		return a
@@ -802,6 +862,9 @@ var aliasKinds = []string{"", "aval", "aptr", "avalstr", "aptrstr"}
 func randAliasKind(r *Rng) string {
 	if r.Pct(12) {
 		return []string{"p3a", "p4a", "p5a", "p6a", "p5", "p6"}[r.Intn(6)]
+	}
+	if r.Pct(10) {
+		return "alocal" // an alias type that shares its printed name with a plain struct type
 	}
 	return aliasKinds[r.Intn(len(aliasKinds))]
 }
